@@ -105,7 +105,7 @@ def run(ctx):
             # ---- draws must have the canonical form (R02.2) and be paired with a debit of the owner
             draw_ok = {}
             for i, e, owner in draws:
-                n_draws.add((e.site[2], e.site[1]))
+                n_draws.add((ename, variant))
                 prob = check_draw(p, i, e)
                 d = None
                 if prob is None:
@@ -131,7 +131,7 @@ def run(ctx):
                     continue
                 if not neg_atoms(dl.nf) and dl.nf.const >= 0:
                     continue
-                n_debits.add((e.site[2], e.site[1]))
+                n_debits.add((ename, variant))
                 K = e.key
                 if K == SENDER:
                     ctx.ob("R02.1", key + "/debit in %s" % e.site[2], True, sites=[e.site],
@@ -159,8 +159,8 @@ def run(ctx):
             else:
                 ctx.ob("R02.5", key, not ents, detail="variant %s emits messages: %s" % (variant, [show(m)[:200] for _, m in ents]),
                        trivial=True)
-    ctx.floor("R02.1", "debit sites", len(n_debits), 6)
-    ctx.floor("R02.2", "draw sites", len(n_draws), 1)
+    ctx.floor("R02.1", "debiting variants", len(n_debits), 6)
+    ctx.floor("R02.2", "drawing variants", len(n_draws), 3)
     ctx.floor("R02.5", "Send/SendFrom Ok-paths", n_emit, 2)
 
 
